@@ -71,6 +71,18 @@ PROPS = {
                 ("h_aml_parse_enum_3", "'enum x {' + every 3-lexeme sequence", False),
                 ("h_aml_parse_array_3", "'block \"IF_DATA\" struct { int [' + every 3-lexeme sequence", False),
             ]
+        ] + [
+            {"engine": "E2", "module": "parser", "harness": h, "functions": ["parser::ParserState::handle_unknown_taggedstruct_tag", "parser::ParserState::get_next_tag_or_comment", "parser::ParserState::get_line_offset", "parser::ParserState::get_token", "parser::ParserState::undo_get_token", "parser::ParserState::expect_token"],
+             "bound": b, "timeout": 300, "quick": q, "extra_modules": ["tokenizer"]}
+            for h, b, q in [
+                ("h_unknown_soup_0", "unknown keyword / block tag at the very end of the input; strictness symbolic", True),
+                ("h_unknown_soup_1", "unknown tag + every 1-lexeme soup over {/begin, /end, ident in {U,S,O} (symbolic), number, string, comment}", True),
+                ("h_unknown_soup_2", "unknown tag + every 2-lexeme soup", True),
+                ("h_unknown_soup_3", "unknown tag + every 3-lexeme soup", True),
+                ("h_unknown_soup_4", "unknown tag + every 4-lexeme soup", False),
+                ("h_next_tag_soup_2", "get_next_tag_or_comment from any cursor position on every 2-lexeme soup with optional line breaks", True),
+                ("h_next_tag_soup_3", "get_next_tag_or_comment from any cursor position on every 3-lexeme soup", False),
+            ]
         ],
     },
     "C13": {
@@ -181,6 +193,19 @@ PROPS = {
             {"engine": "E2", "module": "parser", "harness": "h_str_fixpoint_%d" % n, "functions": ["tokenizer::tokenize_core", "parser::ParserState::get_string", "parser::unescape_string", "writer::Writer::add_quoted_string"],
              "bound": "every accepted string token with %d inner bytes over the same alphabet: second load/write cycle is a fixpoint" % n, "timeout": 300, "extra_modules": ["tokenizer"], "quick": n <= 3}
             for n in (2, 3, 4)
+        ],
+    },
+    "C07": {
+        "files": ["a2lfile/src/parser.rs"],
+        "trusted": T_STD,
+        "assumptions": ["the enclosing block is represented by its stop list {S, T} (each block's real TAG_LIST is outside the claim)",
+                        "preconditions of the property: the payload does not reuse a tag of the enclosing block; a bare unknown keyword is not placed behind an open-ended identifier list",
+                        "a comment directly in front of the next known element may be left to the enclosing block (both are accepted)"],
+        "jobs": [
+            {"engine": "E2", "module": "parser", "harness": "h_unknown_%s_%d" % (k, n), "functions": ["parser::ParserState::handle_unknown_taggedstruct_tag", "parser::ParserState::error_or_log", "parser::ParserState::get_token", "parser::ParserState::undo_get_token"],
+             "bound": ("unknown keyword with %d arguments" % n if k == "kw" else "unknown block with %d items (scalars, comments, nested unknown blocks of depth <= 2)" % n) + ", symbolic identifiers, symbolic strictness, followed by {known tag, /begin known tag, parent /end}",
+             "timeout": 300, "quick": n <= 2, "extra_modules": ["tokenizer"], "must_cover": ["non-strict run"]}
+            for k in ("kw", "block") for n in (0, 1, 2, 3)
         ],
     },
 }
